@@ -77,6 +77,11 @@ K("C03", "K03-phrase-slop-count", "c03_phrase_count_with_slop_len2", timeout=600
   title="count_with_slop > 0 iff some pair is within the slop; slop 0 = exact count",
   functions=["phrase_scorer::intersection_count_with_slop"], bounds="<= 2 x 2 positions; unwind 8")
 K("C03", "K03-phrase-slop-count-3", "c03_phrase_count_with_slop_len3", timeout=1800, tiers="t", mem=40, title="count_with_slop, 3 x 3", functions=["phrase_scorer::intersection_count_with_slop"], bounds="<= 3 x 3 positions")
+K("C03", "K03-should-all-ids", "c03_should_union_with_removed_all_scorer_matches_all_ids", timeout=300,
+  title="SHOULD-only disjunction with a removed match-all clause (scoring off) still enumerates every id 0..max_doc, independent of the live-doc count",
+  functions=["boolean_weight::effective_should_scorer_for_union", "into_box_scorer", "AllScorer::{new,seek,advance}"], bounds="max_doc <= 1000, num_docs <= max_doc, 1..3 removed clauses")
+K("C03", "K03-should-identity", "c03_should_union_without_removed_all_scorer_is_identity", timeout=300,
+  title="without a removed match-all clause the should scorer is passed through", functions=["boolean_weight::effective_should_scorer_for_union"], bounds="")
 K("C03", "K03-i64-order", "c03_i64_to_u64_order_roundtrip", crate="tantivy-common", timeout=60,
   title="i64 <-> u64 mapping is strictly order preserving and bijective",
   functions=["common::i64_to_u64", "common::u64_to_i64"], bounds="all 2^64 x 2^64 pairs", checks="full")
